@@ -14,6 +14,7 @@ import (
 	"github.com/feichai0017/NoKV/manifest"
 	"github.com/feichai0017/NoKV/metrics"
 	"github.com/feichai0017/NoKV/utils"
+	"github.com/feichai0017/NoKV/utils/verifhook"
 	vlogpkg "github.com/feichai0017/NoKV/vlog"
 	"github.com/pkg/errors"
 )
@@ -417,6 +418,7 @@ func (vlog *valueLog) rewrite(bucket uint32, fid uint32) error {
 		return err
 	}
 
+	verifhook.Yield("vlog.gc.rewrite.decided")
 	batchSize := 1024
 	for i := 0; i < len(wb); {
 		end := min(i+batchSize, len(wb))
